@@ -90,6 +90,29 @@ def _case_worker(payload):
                                 if rep2["reproduced"]:
                                     rep, feeds = rep2, sf
                                     break
+                        if not rep["reproduced"]:
+                            # operators modelled by uninterpreted functions (Pow with a non-integral exponent, Exp, ...) give
+                            # counterexamples whose solver inputs need not separate the real functions: retry on seeded inputs
+                            import numpy as np
+                            rr_ = np.random.default_rng(common.seed() + 17)
+                            for trial in range(8):
+                                sf = {}
+                                for n, dt, sh in spec:
+                                    a = np.zeros(sh, dtype=dt.numpy())
+                                    if a.dtype.kind == "f":
+                                        a[...] = rr_.choice([0.5, 1.5, 2.0, 3.0, -1.5, 4.0, 0.25], size=a.shape)
+                                    elif a.dtype.kind == "b":
+                                        a[...] = rr_.integers(0, 2, size=a.shape).astype(bool)
+                                    else:
+                                        a[...] = rr_.integers(-3, 6, size=a.shape)
+                                    sf[n] = a
+                                sg = {gn: sf[n] for gn, n in v.get("input_names", {}).items()} if v.get("input_names") else sf
+                                rep2 = R.replay_script(S.HEADER + prog.src, prog.entry, [n for n, _, _ in spec],
+                                                       {**sf, **sg}, attrs, mp.SerializeToString(), tag="c01r")
+                                if rep2["reproduced"]:
+                                    rep, feeds = rep2, sf
+                                    case["replay_inputs_sampled"] = True
+                                    break
                         case["replay"] = {k: rep[k] for k in ("reproduced", "difference", "eager_err", "graph_err")}
                         case["replay_record"] = {
                             "engine": "S", "harness": f"c01.{prog.name}.{leg}",
